@@ -707,7 +707,7 @@ func spTranslate(pkg *spPkg, mi *msgInfo) (prog []string, failure string) {
 }
 
 func engineSizeProg(cfg config, o *out) {
-	schemas := loadSchemas()
+	schemas := loadSchemasProg()
 	cc := newClassCov("sizeprog")
 	defer cc.emit(o)
 	for _, si := range schemas {
